@@ -106,6 +106,10 @@ func runC13(c *core.Ctx) {
 				odd = true
 				c.Count("runs_under_a_config_file_with_unknown_entries", 1)
 			}
+			if i%7 == 2 {
+				// the switch that would drop the book, spelled with an explicit false value: nothing changes
+				args = append([]string{[]string{"--no-database=false", "--no-database=0"}[i%2]}, args...)
+			}
 			res := srv.App1(args, nil)
 			c.Eval(1)
 			c.Count("runs_"+name, 1)
